@@ -184,6 +184,59 @@ func runC11(c *core.Ctx) {
 		}
 	}
 
+	// 1b. length of the RSA-wrapped key's own CipherValue around the modulus size, for every key transport and two key sizes
+	c.Group("wrapped-key-length")
+	for _, kn := range []string{"sp1024", "sp2048", "sp2047"} {
+		kp := samlgen.Key(kn)
+		rk := kp.Key.(*rsa.PrivateKey)
+		k := rk.Size()
+		for _, tr := range []xenc.KeyTransport{{Alg: xenc.OAEPMGF1P, DigestURI: "http://www.w3.org/2000/09/xmldsig#sha1"}, {Alg: xenc.OAEP11, DigestURI: "http://www.w3.org/2001/04/xmlenc#sha256", MGFURI: "http://www.w3.org/2009/xmlenc11#mgf1sha1"}, {Alg: xenc.RSA15}} {
+			for _, n := range []int{0, 1, k - 1, k, k + 1, k + 2, k + 16, 2 * k, 2*k + 1, 4 * k} {
+				for _, entry := range []string{"EncryptedData", "EncryptedKey"} {
+					for _, withCert := range []bool{true, false} {
+						kn, rk, k, tr, n, entry, withCert := kn, rk, k, tr, n, entry, withCert
+						key := fmt.Sprintf("eklen/%s/%s/len=%d(k%+d)/%s/cert=%v", kn, tr.Alg[strings.LastIndex(tr.Alg, "#")+1:], n, n-k, entry, withCert)
+						c.Case(key, func(t *core.T) {
+							t.NonTrivial()
+							a := algs[0]
+							cek := detKey(a.libKey, "cek"+a.name)
+							w, err := xenc.WrapKey(tr, &rk.PublicKey, harness.NewCtr("wrap"+key), cek)
+							if err != nil {
+								t.Outcome("harness-cannot-wrap")
+								return
+							}
+							cv := append([]byte{}, w...)
+							for len(cv) < n {
+								cv = append([]byte{0}, cv...) // leading zero bytes: the same integer, a longer octet string
+							}
+							if n < len(cv) {
+								cv = cv[len(cv)-n:]
+							}
+							cert := ""
+							if withCert {
+								cert = samlgen.Key(kn).CertB64
+							}
+							ek := xenc.EncryptedKeyEl(tr, cert, cv)
+							var el *etree.Element = ek
+							if entry == "EncryptedData" {
+								el = xenc.EncryptedDataEl(a.alg, ek, validData(a, cek, 20))
+							}
+							pt, derr, pan := decryptTotal(t, "C11/eklen/"+tr.Alg[strings.LastIndex(tr.Alg, "#")+1:], rk, el)
+							t.Outcome(outcomeOf(derr, pan))
+							if n != k {
+								t.Modelled(core.DontCare) // an octet string of another length: an error, or (leading zeros) the same key
+							} else if derr != nil && !pan && tr.Alg != xenc.OAEP11 {
+								t.Fail("C11/eklen/rejects-valid", "%s: a correctly wrapped key of exactly the modulus size is refused: %v", key, derr)
+							}
+							_ = pt
+							t.Compared()
+						})
+					}
+				}
+			}
+		}
+	}
+
 	// 2. crafted final padding byte
 	c.Group("padding-byte")
 	for _, a := range algs {
@@ -498,8 +551,11 @@ func runC11(c *core.Ctx) {
 	c.Group("via-sp")
 	spUnder := harness.NewSP(harness.SPOpt{})
 	for _, a := range algs {
-		for _, place := range []string{"inside", "sibling"} {
+		for _, place := range []string{"inside", "sibling", "sibling+retrievalmethod-quote", "sibling+retrievalmethod-bracket", "sibling+retrievalmethod-plain"} {
 			for n := 0; n <= 65; n++ {
+				if strings.HasPrefix(place, "sibling+") && n%16 != 0 {
+					continue
+				}
 				a, place, n := a, place, n
 				key := fmt.Sprintf("viasp/%s/%s/%d", a.name, place, n)
 				c.Case(key, func(t *core.T) {
@@ -509,10 +565,17 @@ func runC11(c *core.Ctx) {
 					ed := wrapped(a, cek, full[:n])
 					ea := etree.NewElement("saml:EncryptedAssertion")
 					ea.AddChild(ed)
-					if place == "sibling" {
+					if strings.HasPrefix(place, "sibling") {
 						ek := ed.FindElement("./KeyInfo/EncryptedKey")
-						ek.Parent().RemoveChild(ek)
+						ki := ek.Parent()
+						ki.RemoveChild(ek)
 						ea.AddChild(ek)
+						if uri, ok := map[string]string{"sibling+retrievalmethod-quote": "#it's", "sibling+retrievalmethod-bracket": "#key[1", "sibling+retrievalmethod-plain": "#ek"}[place]; ok {
+							ek.CreateAttr("Id", strings.TrimPrefix(uri, "#"))
+							r := ki.CreateElement("ds:RetrievalMethod")
+							r.CreateAttr("Type", "http://www.w3.org/2001/04/xmlenc#EncryptedKey")
+							r.CreateAttr("URI", uri)
+						}
 					}
 					rel := samlgen.DefaultResponse().Element()
 					rel.AddChild(ea)
